@@ -71,6 +71,30 @@ def compatible_cells(number, choice):
     return [(7.0, 7.0, 7.0, 90.0, 90.0, 90.0), (13.7, 13.7, 13.7, 90.0, 90.0, 90.0)]
 
 
+def pseudo_special_cell(number, choice):
+    """
+    a metrically compatible cell whose FREE parameters sit a hair away from special values (pseudo-symmetric and relaxed cells): lengths
+    4e-5 .. 3e-4 off whole numbers, free angles 5e-4 .. 6e-4 degrees off 90 / 120.  Anything that decides "is this 90 degrees / a whole
+    number / equal to that one" with a loose relative tolerance changes such a cell
+    """
+    a, b, c = 7.00004, 8.99996, 40.0003
+    if number <= 2:
+        return (a, b, c, 90.0006, 89.9995, 119.9994)
+    if number <= 15:
+        ax = monoclinic_axis(choice)
+        ang = 90.0006 if number % 2 else 89.9995
+        return (a, b, c, 90.0, ang, 90.0) if ax == "b" else (a, b, c, 90.0, 90.0, ang) if ax == "c" else (a, b, c, ang, 90.0, 90.0)
+    if number <= 74:
+        return (a, b, c, 90.0, 90.0, 90.0)
+    if number <= 142:
+        return (a, a, c, 90.0, 90.0, 90.0)
+    if number <= 194:
+        if choice == "R":
+            return (a, a, a, 89.9995, 89.9995, 89.9995) if number % 2 else (a, a, a, 60.0006, 60.0006, 60.0006)
+        return (a, a, c, 90.0, 90.0, 120.0)
+    return (a, a, a, 90.0, 90.0, 90.0)
+
+
 def periodic_neighbours(M, uc_frac, centres_cart, radius, band=1e-6):
     """
     brute force: for every centre (cartesian) the images (atom index, cell) of unit-cell atoms (fractional,
